@@ -6,6 +6,9 @@
             raws    per distinct raw input: what encoding/json decoded it to, and for every
                     configured log the verdict of VerifySTHSignature on the decoded STH
             hashes  the SHA-256 evaluations the model's verifier needs
+   CEpochs: one observed life of a DATABASE: epochs, each a Witness value created by witness.New
+          over the table the previous one left (restart, or re-opened file), each with its own
+          set of configured logs; the other tables (raws, hashes) are shared.
    CVerify: transparency-dev/merkle proof.VerifyConsistency against [verify_consistency].
    CTree:   the library's tree (roots, consistency proofs, audit paths) against [mth],
             [cproof], [path] of Merkle.v. *)
@@ -71,6 +74,7 @@ Inductive obs :=
 
 Inductive case :=
 | CHist (e : env) (ops : list (op * obs))
+| CEpochs (e : env) (eps : list (list (logid * option bytes) * list (op * obs)))
 | CVerify (t : htable) (m n : N) (proof : list bytes) (r1 r2 : bytes) (lib_ok : bool)
 | CTree (t : htable) (leaves : list bytes) (m : N) (i : N)
         (root_n root_m : bytes) (cons_proof : list bytes) (incl_path : list bytes).
@@ -108,6 +112,17 @@ Definition out_matches (oo : op * out) (o : obs) : bool :=
 Definition model_run (e : env) (ops : list op) : state * list out :=
   run (table_hash (e_hashes e)) 32 (e_strict e) (e_cosign_held e) (env_idhash e) (env_decode e) (env_sig_ok e) id_sign [] ops.
 
+Definition with_logs (e : env) (ls : list (logid * option bytes)) : env :=
+  {| e_logs := ls; e_raws := e_raws e; e_hashes := e_hashes e; e_strict := e_strict e; e_cosign_held := e_cosign_held e |}.
+
+(* [e_logs e] is not looked at: every epoch brings its own configuration *)
+Definition model_epochs (e : env) (eps : list (list (logid * option bytes) * list op)) : state * list (list out) :=
+  run_epochs (table_hash (e_hashes e)) 32 (e_strict e) (e_cosign_held e) (env_decode e) (env_sig_ok e) id_sign []
+    (map (fun ep => (env_idhash (with_logs e (fst ep)), snd ep)) eps).
+
+Definition epoch_ops (eps : list (list (logid * option bytes) * list (op * obs))) :=
+  map (fun ep => (fst ep, map fst (snd ep))) eps.
+
 Fixpoint all2 {A B} (f : A -> B -> bool) (a : list A) (b : list B) : bool :=
   match a, b with
   | [], [] => true
@@ -118,6 +133,9 @@ Fixpoint all2 {A B} (f : A -> B -> bool) (a : list A) (b : list B) : bool :=
 Definition check (c : case) : bool :=
   match c with
   | CHist e ops => all2 out_matches (combine (map fst ops) (snd (model_run e (map fst ops)))) (map snd ops)
+  | CEpochs e eps =>
+      all2 (fun ep outs => all2 out_matches (combine (map fst (snd ep)) outs) (map snd (snd ep)))
+           eps (snd (model_epochs e (epoch_ops eps)))
   | CVerify t m n pf r1 r2 ok => Bool.eqb (verify_consistency (table_hash t) m n pf r1 r2) ok
   | CTree t leaves m i root_n root_m cp ip =>
       let H := table_hash t in
@@ -129,14 +147,16 @@ Definition check (c : case) : bool :=
 
 (* what the model computes, for replay files: per operation the class and the kind of body *)
 Inductive bkind := KNone | KRaw (r : bytes) | KCosigned (size : N) (root : bytes).
+Definition explain_out (o : out) :=
+  match o with
+  | ORsp (b, cl) => (Some (match b with BNone => KNone | BRaw r => KRaw r
+                                   | BCosigned p _ => KCosigned (p_size p) (p_root p) end, cl), None)
+  | OLogs l => (None, Some l)
+  end.
 Definition explain (c : case) :=
   match c with
-  | CHist e ops =>
-      (map (fun o => match o with
-                     | ORsp (b, cl) => (Some (match b with BNone => KNone | BRaw r => KRaw r
-                                                        | BCosigned p _ => KCosigned (p_size p) (p_root p) end, cl), None)
-                     | OLogs l => (None, Some l)
-                     end) (snd (model_run e (map fst ops))), None, None)
+  | CHist e ops => (map explain_out (snd (model_run e (map fst ops))), None, None)
+  | CEpochs e eps => (map explain_out (concat (snd (model_epochs e (epoch_ops eps)))), None, None)
   | CVerify t m n pf r1 r2 _ => ([], Some (verify_consistency (table_hash t) m n pf r1 r2), None)
   | CTree t leaves m i _ _ _ _ =>
       let H := table_hash t in ([], None, Some (mth H leaves, mth H (firstN m leaves), cproof H m leaves, path H i leaves))
